@@ -261,6 +261,11 @@ func (x *Exec) applyContract(st *State, c *Contract, fn *ssa.Function, sig *type
 	if len(regs) > 0 {
 		x.havoc(st, regs, "call "+short)
 	}
+	// the callee may allocate: bump the allocation counter first so that result references are
+	// only known to be below the new counter
+	na := x.decls.Fresh("alloc", SInt)
+	st.assume(Le(st.alloc, na))
+	st.alloc = na
 	// results
 	var res []Value
 	if sig != nil {
@@ -273,15 +278,17 @@ func (x *Exec) applyContract(st *State, c *Contract, fn *ssa.Function, sig *type
 			names["result"] = res[0]
 		}
 	}
-	// the callee may allocate
-	na := x.decls.Fresh("alloc", SInt)
-	st.assume(Le(st.alloc, na))
-	st.alloc = na
 	env2 := &Env{x: x, st: st, old: pre, names: names, assuming: true}
 	npc := len(st.pc)
 	for _, cl := range c.Clauses {
 		if cl.Kind == "ensures" {
-			st.assume(env2.evalBool(cl.E))
+			post := env2.evalBool(cl.E)
+			if post.IsFalse() && !st.dead {
+				// a callee postcondition that is literally false here would silently close the path:
+				// the path must then be infeasible on its own, otherwise the contracts are inconsistent
+				x.addObl(st, "consistent", short+":"+cl.Label, TFalse, pos, "postcondition of "+short+" ["+cl.Label+"] evaluates to false at this call; the call must be unreachable")
+			}
+			st.assume(post)
 		}
 	}
 	// results whose value the contract fixes to a literal are replaced by that literal
@@ -506,6 +513,11 @@ func (x *Exec) loopEntry(st *State, l *Loop) {
 	for _, cl := range x.loopClauses(l, "invariant") {
 		x.addObl(st, "inv_entry", fmt.Sprintf("loop%d.%s", l.Ordinal, cl.Label), env.evalBool(cl.E), "", "invariant holds on loop entry: "+cl.Src)
 	}
+	if loopAllocates(l) {
+		na := x.decls.Fresh("alloc", SInt)
+		st.assume(Le(st.alloc, na))
+		st.alloc = na
+	}
 	// havoc cells assigned in the loop
 	fr := st.frames[0]
 	for b := range l.Blocks {
@@ -529,11 +541,6 @@ func (x *Exec) loopEntry(st *State, l *Loop) {
 	}
 	if len(st.assign) > 0 && loopWritesHeap(l) {
 		x.havoc(st, st.assign, fmt.Sprintf("loop %d", l.Ordinal))
-	}
-	if loopAllocates(l) {
-		na := x.decls.Fresh("alloc", SInt)
-		st.assume(Le(st.alloc, na))
-		st.alloc = na
 	}
 	env = x.loopEnv(st, l)
 	env.assuming = true
